@@ -42,17 +42,78 @@ const (
 	kPort      = 27
 )
 
+// Kinds of the backing arrays of the slices a struct owns.  Such an array is an
+// object of its own: len cells in use out of cap.
+const (
+	kArrQuestion = 30
+	kArrAnswer   = 31
+	kArrNs       = 32
+	kArrExtra    = 33
+	kArrOption   = 34
+	kArrValue    = 35
+	kArrTxt      = 36
+	kArrAlpn     = 37
+	kArrECH      = 38
+	kArrData     = 39
+	kArrCode     = 40
+	kArrHint4    = 41
+	kArrHint6    = 42
+	kArrA        = 43
+	kArrAAAA     = 44
+	kArrAddr     = 45
+)
+
+// isArrKind reports whether k is a backing array whose recycling is not
+// compared with the model (see props/C07.json): everything but the address
+// buffers of the hints.
+func isArrKind(k int) bool { return k >= kArrQuestion && k <= kArrAddr }
+
+// objID names an object independently of where its storage is: the owning
+// struct and a slot number.
+type objID struct {
+	p    uintptr
+	slot int
+}
+
 // fobj is one object of the flattened message.
 type fobj struct {
 	kind int
+	id   objID
 	// addr is the identity of the storage: struct pointer or first byte of the
-	// buffer (0 for a buffer without storage).
+	// backing array (0 for an array without storage).
 	addr uintptr
-	// cp is the capacity in model cells (bytes for buffers).
-	cp   int
+	// cp is the capacity in model cells.
+	cp int
+	// esz is the size of one cell in bytes for arrays, 0 for structs.
+	esz  uintptr
 	vals []uint64
 	// poke mutates cell j of the real object so that its value changes.
 	poke func(j int)
+	// grow appends one element to the slice, the way its holder would.
+	grow func(n uint64)
+}
+
+// use returns the bytes in use, reach the bytes reachable through the object.
+func (o fobj) use() (lo, hi uintptr) {
+	if o.addr == 0 {
+		return 0, 0
+	}
+	if o.esz == 0 {
+		return o.addr, o.addr + 1
+	}
+
+	return o.addr, o.addr + uintptr(len(o.vals))*o.esz
+}
+
+func (o fobj) reach() (lo, hi uintptr) {
+	if o.addr == 0 {
+		return 0, 0
+	}
+	if o.esz == 0 {
+		return o.addr, o.addr + 1
+	}
+
+	return o.addr, o.addr + uintptr(o.cp)*o.esz
 }
 
 func h32(parts ...any) uint64 {
@@ -73,35 +134,121 @@ func noNil(s string) string { return strings.ReplaceAll(s, "<nil>", "") }
 
 func ptrOf(p any) uintptr { return reflect.ValueOf(p).Pointer() }
 
-func bufAddr(b []byte) uintptr {
-	if cap(b) == 0 {
-		return 0
+const doBit = 1 << 15
+
+// arr makes the object for the backing array of *sp, a slice field of the
+// struct owner.
+func arr[T any](kind int, owner any, slot int, sp *[]T, cell func(T) uint64, pokeEl func(*T), newEl func(n uint64) T) fobj {
+	s := *sp
+	o := fobj{kind: kind, id: objID{ptrOf(owner), slot}, cp: cap(s), esz: unsafe.Sizeof(*new(T)), vals: make([]uint64, len(s))}
+	if cap(s) > 0 {
+		o.addr = uintptr(unsafe.Pointer(unsafe.SliceData(s)))
+	}
+	for i, e := range s {
+		o.vals[i] = cell(e)
+	}
+	if pokeEl != nil {
+		o.poke = func(j int) { pokeEl(&(*sp)[j]) }
+	}
+	if newEl != nil {
+		o.grow = func(n uint64) { *sp = append(*sp, newEl(n)) }
 	}
 
-	return uintptr(unsafe.Pointer(unsafe.SliceData(b)))
+	return o
 }
 
-const doBit = 1 << 15
+func typeCell[T any](e T) uint64 { return h32(fmt.Sprintf("%T", e)) }
+func byteCell(b byte) uint64     { return uint64(b) }
+func strCell(s string) uint64    { return h32(s) }
+func pokeByte(b *byte)           { *b ^= 0x5A }
+func pokeStr(s *string)          { *s += "~" }
+func newByte(n uint64) byte      { return byte(n) }
+func newStr(n uint64) string     { return fmt.Sprintf("g%d", n%1000) }
+
+// newRR is a record that somebody appends to a section of a message.
+func newRR(section int, n uint64) dns.RR {
+	name := names[n%uint64(len(names))]
+	switch section*10 + int(n%3) {
+	case 10:
+		return &dns.A{Hdr: dns.RR_Header{Name: name, Rrtype: dns.TypeA, Class: dns.ClassINET, Ttl: uint32(n % 500)},
+			A: net.IP{203, 0, 113, byte(n)}}
+	case 11:
+		return &dns.CNAME{Hdr: dns.RR_Header{Name: name, Rrtype: dns.TypeCNAME, Class: dns.ClassINET, Ttl: 5}, Target: "grown.example."}
+	case 12:
+		return &dns.TXT{Hdr: dns.RR_Header{Name: name, Rrtype: dns.TypeTXT, Class: dns.ClassINET, Ttl: 7}, Txt: []string{newStr(n)}}
+	case 20, 21:
+		return &dns.SOA{Hdr: dns.RR_Header{Name: name, Rrtype: dns.TypeSOA, Class: dns.ClassINET, Ttl: 9}, Ns: "ns.grown.", Mbox: "m.grown.",
+			Serial: uint32(n)}
+	case 22:
+		return &dns.NS{Hdr: dns.RR_Header{Name: name, Rrtype: dns.TypeNS, Class: dns.ClassINET, Ttl: 9}, Ns: "ns.grown."}
+	case 30:
+		return &dns.A{Hdr: dns.RR_Header{Name: name, Rrtype: dns.TypeA, Class: dns.ClassINET, Ttl: 11}, A: net.IP{203, 0, 113, byte(n)}}
+	default:
+		// What Msg.SetEdns0 appends.
+		opt := &dns.OPT{Hdr: dns.RR_Header{Name: ".", Rrtype: dns.TypeOPT}}
+		opt.SetUDPSize(uint16(1200 + n%9))
+		if n%2 == 0 {
+			opt.SetDo()
+		}
+
+		return opt
+	}
+}
+
+// newOption is an option that somebody appends to an OPT (ecscache.setECS,
+// the constructors).
+func newOption(n uint64) dns.EDNS0 {
+	switch n % 3 {
+	case 0:
+		return &dns.EDNS0_SUBNET{Code: dns.EDNS0SUBNET, Family: 1, SourceNetmask: 24, SourceScope: uint8(n % 25),
+			Address: net.IP{100, 64, byte(n >> 8), byte(n)}}
+	case 1:
+		return &dns.EDNS0_COOKIE{Code: dns.EDNS0COOKIE, Cookie: fmt.Sprintf("%016x", n)}
+	default:
+		return &dns.EDNS0_EDE{InfoCode: uint16(n % 30), ExtraText: newStr(n)}
+	}
+}
+
+func newKV(n uint64) dns.SVCBKeyValue {
+	if n%2 == 0 {
+		return &dns.SVCBPort{Port: uint16(n)}
+	}
+
+	return &dns.SVCBAlpn{Alpn: []string{newStr(n)}}
+}
+
+// newHintIP has the capacity of the buffers the cloner itself makes.
+func newHintIP(n uint64) net.IP {
+	ip := make(net.IP, 4, 16)
+	ip[0], ip[1], ip[2], ip[3] = 203, 0, byte(n>>8), byte(n)
+
+	return ip
+}
 
 // flatten returns the objects of m in the order in which Clone visits them.
 func flatten(m *dns.Msg) (objs []fobj) {
-	qs := make([]string, 0, len(m.Question))
-	for _, q := range m.Question {
-		qs = append(qs, fmt.Sprintf("%q/%d/%d", q.Name, q.Qtype, q.Qclass))
-	}
-	objs = append(objs, fobj{kind: kMsg, addr: ptrOf(m), cp: 1, vals: []uint64{h32(fmt.Sprintf("%+v", m.MsgHdr), m.Compress,
-		qs, len(m.Answer), len(m.Ns), len(m.Extra))}, poke: func(int) { m.Id++ }})
+	objs = append(objs, fobj{kind: kMsg, id: objID{ptrOf(m), 0}, addr: ptrOf(m), cp: 1,
+		vals: []uint64{h32(fmt.Sprintf("%+v", m.MsgHdr), m.Compress)}, poke: func(int) { m.Id++ }})
+	objs = append(objs, arr(kArrQuestion, m, 1, &m.Question,
+		func(q dns.Question) uint64 { return h32(fmt.Sprintf("%q/%d/%d", q.Name, q.Qtype, q.Qclass)) },
+		func(q *dns.Question) { q.Qtype++ },
+		func(n uint64) dns.Question {
+			return dns.Question{Name: names[n%uint64(len(names))], Qtype: uint16(n % 70), Qclass: 1}
+		}))
+	objs = append(objs, arr(kArrAnswer, m, 2, &m.Answer, typeCell[dns.RR], nil, func(n uint64) dns.RR { return newRR(1, n) }))
 	for _, rr := range m.Answer {
 		objs = append(objs, flattenAnswer(rr)...)
 	}
+	objs = append(objs, arr(kArrNs, m, 3, &m.Ns, typeCell[dns.RR], nil, func(n uint64) dns.RR { return newRR(2, n) }))
 	for _, rr := range m.Ns {
 		if soa, ok := rr.(*dns.SOA); ok {
-			objs = append(objs, fobj{kind: kSOA, addr: ptrOf(soa), cp: 1, vals: []uint64{h32(soa.String())},
+			objs = append(objs, fobj{kind: kSOA, id: objID{ptrOf(soa), 0}, addr: ptrOf(soa), cp: 1, vals: []uint64{h32(soa.String())},
 				poke: func(int) { soa.Serial++ }})
 		} else {
 			objs = append(objs, plain(rr))
 		}
 	}
+	objs = append(objs, arr(kArrExtra, m, 4, &m.Extra, typeCell[dns.RR], nil, func(n uint64) dns.RR { return newRR(3, n) }))
 	for _, rr := range m.Extra {
 		if opt, ok := rr.(*dns.OPT); ok {
 			objs = append(objs, flattenOPT(opt)...)
@@ -115,39 +262,30 @@ func flatten(m *dns.Msg) (objs []fobj) {
 
 // plain is an RR that is cloned with dns.Copy and never put into a pool.
 func plain(rr dns.RR) fobj {
-	return fobj{kind: kNone, addr: ptrOf(rr), cp: 1, vals: []uint64{h32(hdrStr(rr.Header()), noNil(rr.String()))},
-		poke: func(int) { rr.Header().Ttl++ }}
+	return fobj{kind: kNone, id: objID{ptrOf(rr), 0}, addr: ptrOf(rr), cp: 1,
+		vals: []uint64{h32(hdrStr(rr.Header()), noNil(rr.String()))}, poke: func(int) { rr.Header().Ttl++ }}
 }
 
 func flattenAnswer(rr dns.RR) (objs []fobj) {
-	one := func(k int) []fobj {
-		return []fobj{{kind: k, addr: ptrOf(rr), cp: 1, vals: []uint64{h32(hdrStr(rr.Header()), rr.String())},
-			poke: func(int) { rr.Header().Ttl++ }}}
+	one := func(k int, parts ...any) []fobj {
+		return []fobj{{kind: k, id: objID{ptrOf(rr), 0}, addr: ptrOf(rr), cp: 1,
+			vals: []uint64{h32(append([]any{hdrStr(rr.Header())}, parts...)...)}, poke: func(int) { rr.Header().Ttl++ }}}
 	}
 	switch rr := rr.(type) {
 	case *dns.A:
-		o := one(kA)
-		o[0].vals[0] = h32(hdrStr(&rr.Hdr), []byte(rr.A))
-
-		return o
+		return append(one(kA), arr(kArrA, rr, 1, (*[]byte)(&rr.A), byteCell, pokeByte, newByte))
 	case *dns.AAAA:
-		o := one(kAAAA)
-		o[0].vals[0] = h32(hdrStr(&rr.Hdr), []byte(rr.AAAA))
-
-		return o
+		return append(one(kAAAA), arr(kArrAAAA, rr, 1, (*[]byte)(&rr.AAAA), byteCell, pokeByte, newByte))
 	case *dns.CNAME:
-		return one(kCNAME)
+		return one(kCNAME, rr.Target)
 	case *dns.MX:
-		return one(kMX)
+		return one(kMX, rr.Mx, rr.Preference)
 	case *dns.PTR:
-		return one(kPTR)
+		return one(kPTR, rr.Ptr)
 	case *dns.SRV:
-		return one(kSRV)
+		return one(kSRV, rr.Target, rr.Priority, rr.Weight, rr.Port)
 	case *dns.TXT:
-		o := one(kTXT)
-		o[0].vals[0] = h32(hdrStr(&rr.Hdr), len(rr.Txt), strings.Join(rr.Txt, "\x00"))
-
-		return o
+		return append(one(kTXT), arr(kArrTxt, rr, 1, &rr.Txt, strCell, pokeStr, newStr))
 	case *dns.HTTPS:
 		return flattenHTTPS(rr)
 	default:
@@ -156,65 +294,63 @@ func flattenAnswer(rr dns.RR) (objs []fobj) {
 }
 
 func flattenHTTPS(rr *dns.HTTPS) (objs []fobj) {
-	keys := make([]string, 0, len(rr.Value))
-	for _, kv := range rr.Value {
-		keys = append(keys, fmt.Sprintf("%T", kv))
+	objs = append(objs, fobj{kind: kHTTPS, id: objID{ptrOf(rr), 0}, addr: ptrOf(rr), cp: 1,
+		vals: []uint64{h32(hdrStr(&rr.Hdr), rr.Priority, rr.Target)}, poke: func(int) { rr.Priority++ }})
+	// The two empty value kinds are shared between original and clone; their
+	// presence is in the cells of the value array.
+	objs = append(objs, arr(kArrValue, rr, 1, &rr.Value, typeCell[dns.SVCBKeyValue], nil, newKV))
+	head := func(k int, p any, v uint64, poke func(int)) fobj {
+		return fobj{kind: k, id: objID{ptrOf(p), 0}, addr: ptrOf(p), cp: 1, vals: []uint64{v}, poke: poke}
 	}
-	objs = append(objs, fobj{kind: kHTTPS, addr: ptrOf(rr), cp: 1, vals: []uint64{h32(hdrStr(&rr.Hdr), rr.Priority,
-		rr.Target, keys)}, poke: func(int) { rr.Priority++ }})
 	for _, kv := range rr.Value {
 		switch kv := kv.(type) {
 		case *dns.SVCBAlpn:
-			objs = append(objs, fobj{kind: kAlpn, addr: ptrOf(kv), cp: 1, vals: []uint64{h32(len(kv.Alpn),
-				strings.Join(kv.Alpn, "\x00"))}, poke: func(int) { kv.Alpn = append(kv.Alpn[:0:0], "poked") }})
+			objs = append(objs, head(kAlpn, kv, 1, nil), arr(kArrAlpn, kv, 1, &kv.Alpn, strCell, pokeStr, newStr))
 		case *dns.SVCBDoHPath:
-			objs = append(objs, fobj{kind: kDoHPath, addr: ptrOf(kv), cp: 1, vals: []uint64{h32(kv.Template)},
-				poke: func(int) { kv.Template += "~" }})
+			objs = append(objs, head(kDoHPath, kv, h32(kv.Template), func(int) { kv.Template += "~" }))
 		case *dns.SVCBECHConfig:
-			objs = append(objs, fobj{kind: kECH, addr: ptrOf(kv), cp: 1, vals: []uint64{h32(kv.ECH)},
-				poke: func(int) { kv.ECH = append(kv.ECH[:0:0], 0xEE, byte(len(kv.ECH))) }})
+			objs = append(objs, head(kECH, kv, 1, nil), arr(kArrECH, kv, 1, &kv.ECH, byteCell, pokeByte, newByte))
 		case *dns.SVCBLocal:
-			objs = append(objs, fobj{kind: kLocal, addr: ptrOf(kv), cp: 1, vals: []uint64{h32(kv.KeyCode, kv.Data)},
-				poke: func(int) { kv.KeyCode++ }})
+			objs = append(objs, head(kLocal, kv, h32(kv.KeyCode), func(int) { kv.KeyCode++ }),
+				arr(kArrData, kv, 1, &kv.Data, byteCell, pokeByte, newByte))
 		case *dns.SVCBMandatory:
-			objs = append(objs, fobj{kind: kMandatory, addr: ptrOf(kv), cp: 1, vals: []uint64{h32(kv.Code)},
-				poke: func(int) { kv.Code = append(kv.Code[:0:0], dns.SVCBKey(len(kv.Code)+7)) }})
+			objs = append(objs, head(kMandatory, kv, 1, nil), arr(kArrCode, kv, 1, &kv.Code,
+				func(c dns.SVCBKey) uint64 { return uint64(c) }, func(c *dns.SVCBKey) { *c ^= 0x40 },
+				func(n uint64) dns.SVCBKey { return dns.SVCBKey(n % 8) }))
 		case *dns.SVCBPort:
-			objs = append(objs, fobj{kind: kPort, addr: ptrOf(kv), cp: 1, vals: []uint64{h32(kv.Port)},
-				poke: func(int) { kv.Port++ }})
+			objs = append(objs, head(kPort, kv, h32(kv.Port), func(int) { kv.Port++ }))
 		case *dns.SVCBIPv4Hint:
-			objs = append(objs, fobj{kind: kV4Hint, addr: ptrOf(kv), cp: 1, vals: []uint64{h32(len(kv.Hint))},
-				poke: nil})
-			objs = append(objs, flattenIPs(kv.Hint)...)
+			objs = append(objs, head(kV4Hint, kv, 1, nil))
+			objs = append(objs, flattenIPs(kArrHint4, kv, &kv.Hint)...)
 		case *dns.SVCBIPv6Hint:
-			objs = append(objs, fobj{kind: kV6Hint, addr: ptrOf(kv), cp: 1, vals: []uint64{h32(len(kv.Hint))},
-				poke: nil})
-			objs = append(objs, flattenIPs(kv.Hint)...)
+			objs = append(objs, head(kV6Hint, kv, 1, nil))
+			objs = append(objs, flattenIPs(kArrHint6, kv, &kv.Hint)...)
 		default:
-			// SVCBNoDefaultAlpn, SVCBOhttp: empty structs shared between
-			// original and clone; their presence is part of the HTTPS head.
+			// SVCBNoDefaultAlpn, SVCBOhttp.
 		}
 	}
 
 	return objs
 }
 
-func flattenIPs(ips []net.IP) (objs []fobj) {
-	for _, ip := range ips {
-		vals := make([]uint64, len(ip))
-		for i, b := range ip {
-			vals[i] = uint64(b)
-		}
-		objs = append(objs, fobj{kind: kBuf, addr: bufAddr(ip), cp: cap(ip), vals: vals,
-			poke: func(j int) { ip[j] ^= 0x5A }})
+// flattenIPs returns the array of slice headers of a hint and the address
+// buffers.  A cell of the former stands for one header; what it refers to is
+// the buffer object.
+func flattenIPs(kind int, owner any, ips *[]net.IP) (objs []fobj) {
+	objs = append(objs, arr(kind, owner, 1, ips, func(net.IP) uint64 { return 1 }, nil, newHintIP))
+	for i := range *ips {
+		o := arr(kBuf, owner, 100+i, (*[]byte)(&(*ips)[i]), byteCell, pokeByte, newByte)
+		objs = append(objs, o)
 	}
 
 	return objs
 }
 
+// flattenOPT returns the OPT, its options, and then the arrays: the model
+// looks for an unknown option among the objects that follow the OPT directly.
 func flattenOPT(opt *dns.OPT) (objs []fobj) {
-	objs = append(objs, fobj{kind: kOpt, addr: ptrOf(opt), cp: 2, vals: []uint64{uint64(opt.Hdr.Ttl &^ doBit),
-		h32(fmt.Sprintf("%q/%d/%d/%v", opt.Hdr.Name, opt.Hdr.Rrtype, opt.Hdr.Class, opt.Hdr.Ttl&doBit != 0), len(opt.Option))},
+	objs = append(objs, fobj{kind: kOpt, id: objID{ptrOf(opt), 0}, addr: ptrOf(opt), cp: 2, vals: []uint64{uint64(opt.Hdr.Ttl &^ doBit),
+		h32(fmt.Sprintf("%q/%d/%d/%v", opt.Hdr.Name, opt.Hdr.Rrtype, opt.Hdr.Class, opt.Hdr.Ttl&doBit != 0))},
 		poke: func(j int) {
 			if j == 0 {
 				opt.Hdr.Ttl ^= 0x00010000
@@ -222,24 +358,27 @@ func flattenOPT(opt *dns.OPT) (objs []fobj) {
 				opt.Hdr.Class++
 			}
 		}})
+	var addrs []fobj
 	for _, o := range opt.Option {
+		id := objID{ptrOf(o), 0}
 		switch o := o.(type) {
 		case *dns.EDNS0_COOKIE:
-			objs = append(objs, fobj{kind: kCookie, addr: ptrOf(o), cp: 1, vals: []uint64{h32(o.Code, o.Cookie)},
+			objs = append(objs, fobj{kind: kCookie, id: id, addr: ptrOf(o), cp: 1, vals: []uint64{h32(o.Code, o.Cookie)},
 				poke: func(int) { o.Cookie += "0" }})
 		case *dns.EDNS0_EDE:
-			objs = append(objs, fobj{kind: kEDE, addr: ptrOf(o), cp: 1, vals: []uint64{h32(o.InfoCode, o.ExtraText)},
+			objs = append(objs, fobj{kind: kEDE, id: id, addr: ptrOf(o), cp: 1, vals: []uint64{h32(o.InfoCode, o.ExtraText)},
 				poke: func(int) { o.InfoCode++ }})
 		case *dns.EDNS0_SUBNET:
-			objs = append(objs, fobj{kind: kSubnet, addr: ptrOf(o), cp: 1, vals: []uint64{h32(o.Code, o.Family,
-				o.SourceNetmask, o.SourceScope, []byte(o.Address))}, poke: func(int) { o.SourceScope++ }})
+			objs = append(objs, fobj{kind: kSubnet, id: id, addr: ptrOf(o), cp: 1, vals: []uint64{h32(o.Code, o.Family,
+				o.SourceNetmask, o.SourceScope)}, poke: func(int) { o.SourceScope++ }})
+			addrs = append(addrs, arr(kArrAddr, o, 1, (*[]byte)(&o.Address), byteCell, pokeByte, newByte))
 		default:
-			objs = append(objs, fobj{kind: kUnkOpt, addr: ptrOf(o), cp: 1, vals: []uint64{h32(o.Option(), o.String())},
-				poke: nil})
+			objs = append(objs, fobj{kind: kUnkOpt, id: id, addr: ptrOf(o), cp: 1, vals: []uint64{h32(o.Option(), o.String())}})
 		}
 	}
+	objs = append(objs, arr(kArrOption, opt, 1, &opt.Option, typeCell[dns.EDNS0], nil, newOption))
 
-	return objs
+	return append(objs, addrs...)
 }
 
 // showObjs renders objects the way the model driver dumps them.
@@ -262,20 +401,27 @@ func showObjs(objs []fobj) string {
 }
 
 // newLine renders the `new` op for a message that did not come from the cloner.
-// Buffers keep their relative layout: buffers whose reachable bytes overlap
-// share one array in the model, too.
+// Arrays keep their relative layout: arrays whose reachable bytes overlap
+// share cells in the model, too.
 func newLine(d int, objs []fobj) string {
-	type arr struct{ lo, hi uintptr }
-	var arrs []arr
+	type ext struct {
+		lo, hi uintptr
+		esz    uintptr
+	}
+	var arrs []ext
 	for _, o := range objs {
-		if o.kind == kBuf && o.cp > 0 {
-			arrs = append(arrs, arr{o.addr, o.addr + uintptr(o.cp)})
+		if o.esz > 0 && o.cp > 0 {
+			lo, hi := o.reach()
+			arrs = append(arrs, ext{lo, hi, o.esz})
 		}
 	}
 	sort.Slice(arrs, func(i, j int) bool { return arrs[i].lo < arrs[j].lo })
-	var merged []arr
+	var merged []ext
 	for _, a := range arrs {
 		if n := len(merged); n > 0 && a.lo < merged[n-1].hi {
+			if a.esz != merged[n-1].esz {
+				panic("arrays of different element sizes overlap")
+			}
 			if a.hi > merged[n-1].hi {
 				merged[n-1].hi = a.hi
 			}
@@ -287,15 +433,15 @@ func newLine(d int, objs []fobj) string {
 	arrOff := make([]int, len(merged))
 	for i, a := range merged {
 		arrOff[i] = cursor
-		cursor += int(a.hi - a.lo)
+		cursor += int((a.hi - a.lo) / a.esz)
 	}
 	var sb strings.Builder
 	for _, o := range objs {
 		off := cursor
-		if o.kind == kBuf {
+		if o.esz > 0 {
 			if o.cp > 0 {
 				i := sort.Search(len(merged), func(i int) bool { return merged[i].hi > o.addr })
-				off = arrOff[i] + int(o.addr-merged[i].lo)
+				off = arrOff[i] + int((o.addr-merged[i].lo)/o.esz)
 			}
 		} else {
 			cursor += o.cp
@@ -312,39 +458,70 @@ func newLine(d int, objs []fobj) string {
 // region is a piece of mutable memory reachable from a message.
 type region struct {
 	lo, hi uintptr
-	what   string
+	at     *pnode
+}
+
+// pnode is one step of the path to a region; the text is made only when an
+// overlap is reported.
+type pnode struct {
+	up   *pnode
+	name string
+	idx  int
+}
+
+func (p *pnode) String() string {
+	if p == nil {
+		return "m"
+	}
+	if p.name == "" {
+		return fmt.Sprintf("%s[%d]", p.up, p.idx)
+	}
+
+	return p.up.String() + "." + p.name
 }
 
 // regions walks v and collects every struct a pointer leads to and every slice
-// backing array (up to the length when useLen, else up to the capacity).
-func regions(v reflect.Value, useLen bool, path string, out *[]region) {
+// backing array: up to the capacity into reach, up to the length into own.
+func regions(v reflect.Value, at *pnode, reach, own *[]region) {
 	switch v.Kind() {
 	case reflect.Pointer:
 		if v.IsNil() {
 			return
 		}
 		if sz := v.Type().Elem().Size(); sz > 0 {
-			*out = append(*out, region{v.Pointer(), v.Pointer() + sz, path})
+			r := region{v.Pointer(), v.Pointer() + sz, at}
+			*reach, *own = append(*reach, r), append(*own, r)
 		}
-		regions(v.Elem(), useLen, path, out)
+		regions(v.Elem(), at, reach, own)
 	case reflect.Interface:
 		if !v.IsNil() {
-			regions(v.Elem(), useLen, path+"."+v.Elem().Type().String(), out)
+			regions(v.Elem(), &pnode{up: at, name: v.Elem().Type().String()}, reach, own)
 		}
 	case reflect.Slice:
-		n := v.Cap()
-		if useLen {
-			n = v.Len()
+		if sz := v.Type().Elem().Size(); sz > 0 {
+			arrAt := &pnode{up: at, name: "[]"}
+			if n := v.Cap(); n > 0 {
+				*reach = append(*reach, region{v.Pointer(), v.Pointer() + uintptr(n)*sz, arrAt})
+			}
+			if n := v.Len(); n > 0 {
+				*own = append(*own, region{v.Pointer(), v.Pointer() + uintptr(n)*sz, arrAt})
+			}
 		}
-		if sz := v.Type().Elem().Size(); n > 0 && sz > 0 {
-			*out = append(*out, region{v.Pointer(), v.Pointer() + uintptr(n)*sz, path + "[]"})
-		}
-		for i := 0; i < v.Len(); i++ {
-			regions(v.Index(i), useLen, fmt.Sprintf("%s[%d]", path, i), out)
+		switch v.Type().Elem().Kind() {
+		case reflect.Pointer, reflect.Interface, reflect.Slice, reflect.Struct:
+			for i := 0; i < v.Len(); i++ {
+				regions(v.Index(i), &pnode{up: at, idx: i}, reach, own)
+			}
+		default:
 		}
 	case reflect.Struct:
+		t := v.Type()
 		for i := 0; i < v.NumField(); i++ {
-			regions(v.Field(i), useLen, path+"."+v.Type().Field(i).Name, out)
+			switch f := v.Field(i); f.Kind() {
+			case reflect.Pointer, reflect.Interface, reflect.Slice, reflect.Struct:
+				regions(f, &pnode{up: at, name: t.Field(i).Name}, reach, own)
+			default:
+			}
 		}
 	default:
 	}
@@ -370,7 +547,7 @@ func overlap(a, b []region, same bool) string {
 	for i := range all {
 		for j := i + 1; j < len(all) && all[j].r.lo < all[i].r.hi; j++ {
 			if same || all[i].src != all[j].src {
-				return all[i].r.what + " overlaps " + all[j].r.what
+				return all[i].r.at.String() + " overlaps " + all[j].r.at.String()
 			}
 		}
 	}
